@@ -412,6 +412,24 @@ fn run_case(c: &mut Ctx, stream: &str, g: &GenDoc, start: u32, mode: Mode) {
     if pages_after != want_pages {
         c.oracle_fail("iso:page-order", "page order changed", json!({"case": case, "want": format!("{:?}", want_pages), "got": format!("{:?}", pages_after)}));
     }
+    // order (renumber_spec / renumber_monotone / renumber_pages_ascending), stated without the reference renaming:
+    // pages get strictly ascending numbers in page order; objects that are not pages keep their relative order
+    {
+        let nums: BTreeSet<u32> = doc.objects.keys().map(|k| k.0).collect();
+        if nums.len() == doc.objects.len() {
+            let mut first: Vec<ObjectId> = Vec::new();
+            for p in &pages_after { if !first.contains(p) { first.push(*p); } }
+            if first.windows(2).any(|w| w[0].0 >= w[1].0) {
+                c.oracle_fail("order:pages-ascending", "page numbers do not ascend in page order", json!({"case": case, "pages": format!("{:?}", pages_after)}));
+            }
+            let leaves: BTreeSet<ObjectId> = g.leaves.iter().cloned().collect();
+            let others: Vec<u32> = doc.objects.keys().filter(|k| !leaves.contains(k)).map(|k| f(*k).0).collect();
+            if others.windows(2).any(|w| w[0] >= w[1]) {
+                c.oracle_fail("order:non-pages", "objects that are not pages changed their relative order", case.clone());
+            }
+            c.count("order_checked");
+        }
+    }
     // bookmarks
     if !doc.bookmark_table.is_empty() {
         let seq = sequential_pairs(doc, &g.leaves, start);
